@@ -939,12 +939,13 @@ Definition s_dash_n : str := [45; 110].
 (* X ++ "-n" ++ digits *)
 Definition nested_shape (x : str) : bool :=
   match drop_while is_digit (rev x) with 110 :: 45 :: _ => true | _ => false end.
-(* the four kinds of ids a namespace page carries (L = tag ids of the types listed on the page) *)
-Definition id_class (L : list str) (x : str) : bool :=
-  str_in x L || no_dash x || ends_with x s_sidebar_sfx || nested_shape x.
+(* the kinds of ids a namespace page carries: L = tag ids of the types listed on the page, LN = ids of the namespaces at or
+   below the page's namespace, ST = static ids of the template frame; plus X_sidebar and nesting occurrences X-n<k> *)
+Definition id_class (L LN ST : list str) (x : str) : bool :=
+  str_in x L || str_in x LN || str_in x ST || ends_with x s_sidebar_sfx || nested_shape x.
 Definition is_comp (t : ty) : bool := match t with Comp _ _ => true | _ => false end.
 Fixpoint tops_ok (n : nst) : bool :=
-  match n with NS name _ ts subs => no_dash name && forallb (fun e => is_comp (snd e)) ts && tops_ok_l subs end
+  match n with NS name _ ts subs => forallb (fun e => is_comp (snd e)) ts && tops_ok_l subs end
 with tops_ok_l (l : nsl) : bool := match l with NNil => true | NCons n r => tops_ok n && tops_ok_l r end.
 Definition version_ok (t : tinfo) : bool :=
   (0 <=? ti_major t)%Z && (ti_major t <? 256)%Z && (0 <=? ti_minor t)%Z && (ti_minor t <? 256)%Z.
@@ -962,3 +963,13 @@ Definition w_us : ty := Comp {| ci_t := mk_tinfo "r._" "r" 0 1; ci_deprecated :=
                                 ci_service := false; ci_svc_request := false; ci_doc := [] |} plain_u8.
 Definition w_x_us : ty := Comp (mk_cinfo "r.X" "r" false) (ANested (lit "t") [] w_us ANil).
 Definition w_site_us : nst := NS (lit "r") [(lit "_", []); (lit "X", [])] [(lit "_", w_us); (lit "X", w_x_us)] NNil.
+
+(* which of the kinds an id string belongs to, read off its end: 3 = ..._sidebar, 2 = ...--ns (namespace), 4 = ...-n<digits> (nesting
+   occurrence), 1 = ...-<digits> (type), 0 = none of these (static ids) *)
+Definition last_is_digit (x : str) : bool := match rev x with c :: _ => is_digit c | [] => false end.
+Definition id_kind (x : str) : N :=
+  if ends_with x s_sidebar_sfx then 3 else if ends_with x s_ddns then 2 else if nested_shape x then 4 else if last_is_digit x then 1 else 0.
+
+(* witness for colliding namespace ids: a.b_c beside a.b.c (and the sidebar twins) *)
+Definition w_site_nsdup : nst :=
+  NS (lit "a") [] [] (NCons (NS (lit "a.b") [] [] (NCons (NS (lit "a.b.c") [] [] NNil) NNil)) (NCons (NS (lit "a.b_c") [] [] NNil) NNil)).
